@@ -188,6 +188,10 @@ class Gen:
                 out[k] = "L%d|%d" % (L, self.fresh())
         return out
 
+    def esr_pattern(self, level):
+        L, n = self.lid(level), self.fresh()
+        return ("sub$|^mk%d_%d$" if self.rng.random() < 0.6 else "^mk%d_%d$") % (L, n)
+
     def rt(self, level):
         r = self.rng
         out = {}
@@ -286,6 +290,7 @@ def gen_case(rng, base, stream):
         else:
             case["env"]["ptr"]["recursive"] = True
     # ---- per-mock and per-file parameters
+    case["_excl_bias"] = r.random() < 0.5
     for lv, c, kind in top + list(levels()):
         if builtin:
             if kind in ("env",):
@@ -343,8 +348,25 @@ def gen_case(rng, base, stream):
         # replace-type (file and below; costs a packages.Load per replaced variable)
         if kind != "env" and r.random() < (0.22 if kind in ("file", "pkg") else 0.12):
             c["rt"] = g.rt(lv)
-        if kind in ("file", "pkg", "iface") and r.random() < 0.05:
-            c["esr"] = []                       # empty list: nothing is excluded, but it is "set"
+        # exclude-subpkg-regex: unset / explicitly empty / non-empty (own marker pattern per level; a
+        # pattern either matches the one sub-package of the module, p/sub, or nothing)
+        pe = {"file": 0.25, "pkg": 0.3}.get(kind, 0.04 if kind != "env" else 0.0)
+        if r.random() < pe:
+            c["esr"] = [] if r.random() < 0.4 else [g.esr_pattern(lv) for _ in range(r.choice([1, 1, 2]))]
+        # explicitly empty values above a value set at a less specific level
+        if kind == "pkg" and r.random() < 0.12:
+            c["ptr"][r.choice(["include-interface-regex", "exclude-interface-regex"])] = ""
+        if kind != "env" and c["rt"] is None and r.random() < 0.05:
+            c["rt"] = {}
+        if kind != "env" and r.random() < 0.05:
+            c["rt_empty"] = True                # `replace-type: {<ty>: {}}`: an inner map without entries
+    pkp = case["pkgs"].get(MOD + "/p")
+    rec_somewhere = any(c["ptr"].get("recursive") for c in [case["env"], case["file"]] + ([pkp["config"]] if pkp and pkp["config"] else []))
+    if case.pop("_excl_bias") and rec_somewhere and pkp is not None and stream in ("main", "leak"):
+        # a list at the top level that excludes p/sub, and (half of the time) p's own list on top of it
+        case["file"]["esr"] = ["sub$|^mk%d_%d$" % (g.lid("file"), g.fresh())]
+        if pkp["config"] is not None:
+            pkp["config"]["esr"] = r.choice([None, [], [], [g.esr_pattern("pkg:" + MOD + "/p")]])
     if r.random() < 0.25:
         case["flags"]["log-level"] = g.marker("log-level", "flags", False)
     if stream == "leak":
@@ -460,6 +482,8 @@ def cfg_yaml(c):
         for (kp, kt), (vp, vt) in c["rt"].items():
             rt.setdefault(MOD + "/" + kp, {})[kt] = {"pkg-path": MOD + "/" + vp, "type-name": vt}
         d["replace-type"] = rt
+    if c.get("rt_empty"):
+        d.setdefault("replace-type", {}).setdefault(MOD + "/ty", {})
     if c["esr"] is not None:
         d["exclude-subpkg-regex"] = c["esr"]
     return d
@@ -694,8 +718,13 @@ def expected(case):
     for path in list(pkgs):
         rel = path[len(MOD) + 1:]
         if first_set([pkgs[path]["config"]] + top, "recursive") and rel in SUBS:
+            # sub-package exclusion is a per-package parameter: the package's own list if it writes
+            # one (an explicitly empty list excludes nothing), else the top level's
+            esr = next((c["esr"] for c in [pkgs[path]["config"], case["file"]] if c is not None and c["esr"] is not None), [])
             for s in SUBS[rel]:
                 sp = MOD + "/" + s
+                if any(re.search(rgx, sp) for rgx in esr):
+                    continue
                 if sp not in pkgs:
                     pkgs[sp] = {"config": pkgs[path]["config"], "interfaces": {}, "origin": [path]}
                 else:
@@ -855,6 +884,8 @@ def oracle(case, obs):
         want_td = chain_td([case["file"], case["env"]])
         if (root.get("template-data") or {}) != want_td:
             errs.append(("sources", "top level template-data %r, expected %r" % (root.get("template-data"), want_td)))
+        if (root.get("exclude-subpkg-regex") or []) != (case["file"]["esr"] or []):
+            errs.append(("sources", "top level exclude-subpkg-regex %r, the configuration file says %r" % (root.get("exclude-subpkg-regex"), case["file"]["esr"])))
         got_rt = yaml_cfg_to_abs(root)["rt"]
         want_rt = {(MOD + "/" + kp, kt): (MOD + "/" + vp, vt) for (kp, kt), (vp, vt) in (case["file"]["rt"] or {}).items()}
         if got_rt != want_rt:
@@ -1116,7 +1147,10 @@ def case_term(case, base, obs):
             % (coq_bytes(n), coq_bytes("{{.InterfaceDir}}"), coq_bytes(rel), coq_bytes("{{.Mock}}{{.InterfaceName}}"), coq_bytes("Mock" + n),
                coq_bytes("{{.SrcPackageName}}"), coq_bytes(rel.split("/")[-1])) for n in ifaces)))
     names = sorted({n for l in SRC.values() for n in l})
-    rx = coq_list("(%s, %s)" % (coq_bytes(rgx), coq_strs([n for n in names if re.search(rgx, n)])) for rgx in REGEXES)
+    pats = sorted({x for lv, c in all_levels(case) for x in (c["esr"] or [])})
+    paths = [MOD + "/" + rel for rel in SRC]
+    rx = coq_list(["(%s, %s)" % (coq_bytes(rgx), coq_strs([n for n in names if re.search(rgx, n)])) for rgx in REGEXES] +
+                  ["(%s, %s)" % (coq_bytes(rgx), coq_strs([x for x in paths if re.search(rgx, x)])) for rgx in pats])
     flags = {"ptr": dict(case["flags"]), "td": None, "rt": None, "esr": None}
     tdk = "None" if case["tdkeys"] is None else "(Some (%s, %s))" % (coq_strs(case["tdkeys"][0]), coq_strs(case["tdkeys"][1]))
     return ("{| k_env := %s; k_file := %s; k_flags := %s; k_pkgs := %s; k_disc := %s; k_src := %s; k_rx := %s; "
@@ -1159,6 +1193,8 @@ def shrink(ctx, base, case, fails):
                 yield ("td", lv)
             if cfg["rt"] is not None:
                 yield ("rt", lv)
+            if cfg["esr"] is not None:
+                yield ("esr", lv)
         if c["flags"]:
             yield ("flags",)
 
@@ -1175,6 +1211,8 @@ def shrink(ctx, base, case, fails):
                         cfg["ptr"].pop(cand[2], None)
                     elif cand[0] == "td":
                         cfg["td"] = None
+                    elif cand[0] == "esr":
+                        cfg["esr"] = None
                     else:
                         cfg["rt"] = None
         return c
@@ -1268,7 +1306,7 @@ def dump_case(case, base):
     def cfg(c):
         if c is None:
             return None
-        return {"ptr": c["ptr"], "td": c["td"], "esr": c["esr"],
+        return {"ptr": c["ptr"], "td": c["td"], "esr": c["esr"], "rt_empty": bool(c.get("rt_empty")),
                 "rt": None if c["rt"] is None else [[list(k), list(v)] for k, v in c["rt"].items()]}
     d = {"stream": case["stream"], "env": cfg(case["env"]), "file": cfg(case["file"]), "flags": case["flags"],
          "existing": case["existing"], "schemas": case["schemas"], "tdkeys": case["tdkeys"], "levels": case["levels"], "pkgs": {}}
@@ -1292,7 +1330,7 @@ def load_case(d, base):
     def cfg(c):
         if c is None:
             return None
-        return {"ptr": c["ptr"], "td": c["td"], "esr": c["esr"],
+        return {"ptr": c["ptr"], "td": c["td"], "esr": c["esr"], "rt_empty": bool(c.get("rt_empty")),
                 "rt": None if c["rt"] is None else {tuple(k): tuple(v) for k, v in c["rt"]}}
     case = {"stream": d["stream"], "env": cfg(d["env"]), "file": cfg(d["file"]), "flags": d["flags"], "existing": d["existing"],
             "schemas": d["schemas"], "tdkeys": None if d["tdkeys"] is None else tuple(d["tdkeys"]), "levels": d["levels"], "pkgs": {}}
@@ -1388,7 +1426,8 @@ def check(ctx, only=None):
         per_param = {}
         for lv, cfg in all_levels(c):
             kind = lv.split(":")[0]
-            keys = list(cfg["ptr"]) + (["template-data"] if cfg["td"] is not None else []) + (["replace-type"] if cfg["rt"] is not None else [])
+            keys = list(cfg["ptr"]) + (["template-data"] if cfg["td"] is not None else []) + (["replace-type"] if cfg["rt"] is not None else []) + \
+                   ([("exclude-subpkg-regex=[]" if cfg["esr"] == [] else "exclude-subpkg-regex")] if cfg["esr"] is not None else [])
             for k in keys:
                 hist["param_at_level"]["%s@%s" % (k, kind)] = hist["param_at_level"].get("%s@%s" % (k, kind), 0) + 1
                 per_param[k] = per_param.get(k, 0) + 1
